@@ -22,6 +22,7 @@ package seccomp
 
 import (
 	"fmt"
+	"runtime"
 	"syscall"
 	"unsafe"
 
@@ -63,6 +64,11 @@ func LoadFilter(filter Filter) error {
 		Len:    uint16(len(sockFilter)),
 		Filter: &sockFilter[0],
 	}
+
+	// The no_new_privs bit is a per-thread attribute and must be set on the thread that
+	// installs the filter, so the goroutine must not change threads between the two calls.
+	runtime.LockOSThread()
+	defer runtime.UnlockOSThread()
 
 	if filter.NoNewPrivs {
 		if err = SetNoNewPrivs(); err != nil {
